@@ -1,6 +1,7 @@
 package main
 
 import (
+	"github.com/ulikunitz/lz"
 	"math/rand"
 	"sort"
 
@@ -126,6 +127,14 @@ func runSuffix(s *Script, rec *Rec) {
 				e["lcps"] = [][]int{}
 			}
 			rec.Emit(e)
+		case "lcplcs":
+			// lcp / lcs of bytes.go on a case enumerated by WordOps.tla
+			pp, qq := bytesOf(op["p"]), bytesOf(op["q"])
+			var a, b int
+			if !rec.Call(name, func() { a, b = lz.VerifLcpLcs(pp, qq) }) {
+				return
+			}
+			rec.Emit(Event{"op": name, "p": B(pp), "q": B(qq), "lcp": a, "lcs": b})
 		case "trsort":
 			// the whole rank sort on an input enumerated by TrSortMC.tla
 			// (verif export VerifTrSort); the ranks at the start of every
